@@ -106,7 +106,7 @@ static uint64_t max_disk = 256u << 20;
 static uint32_t fill_byte = 0xA5, heap_pad, stdout_kind = 1, cpu_limit = 20, unbuf_out;
 static char*    s_env[256];
 static int      s_nenv;
-static char*    s_argv[256];
+static char*    s_argv[8192]; /* argc is checked against this when the scenario is loaded */
 static int      s_argc;
 static char     s_dirs[16][PATHMAX];
 static int      s_ndirs;
@@ -674,6 +674,10 @@ static void parse_scenario(uint8_t* p) {
     want_events = g32(&p);
     unbuf_out   = g32(&p);
     s_argc      = (int)g32(&p);
+    if (s_argc < 0 || s_argc >= (int)(sizeof(s_argv) / sizeof(*s_argv))) {
+        fprintf(stderr, "simrt: scenario has %d arguments, more than the runtime takes\n", s_argc);
+        _exit(99);
+    }
     for (int i = 0; i < s_argc; i++) s_argv[i] = gstr(&p);
     s_argv[s_argc] = NULL;
     s_nenv         = (int)g32(&p);
